@@ -438,6 +438,10 @@ def curated():
     # arrays of enums (ARY of variable-width integers), a structure with more members than a fixint can count
     A(('arr', ('enum', 'EnU32'), 3)); A(('carr', ('enum', 'EnI16'), 4)); A(('arr', ('enum', 'EnI64'), 2))
     A(p.struct([('m%d' % i, u8 if i % 7 else u16) for i in range(130)], name='StWide130'))
+    # a tuple with more elements than a fixint can count, a Variant whose last alternatives have an index that
+    # needs the I16 class (alternatives are distinct array types so that every index is a different type)
+    A(('tup', [u8 if i % 5 else u16 for i in range(130)]))
+    A(('var', [('arr', u8, n + 1) for n in range(130)]))
     # zero-length std::array (a legal type: BIN / ARY with length 0)
     A(('arr', u8, 0)); A(('arr', u32, 0)); A(('arr', string, 0)); A(p.struct([('z', ('arr', u16, 0)), ('n', u8), ('e', ('arr', ('pair', u8, u8), 0))], name='StZeroArr'))
     # wide strings FOLLOWED by further members (the string decoder ensures characters and reads bytes)
